@@ -39,8 +39,11 @@ def gen_prog(rnd, depth=0):
             row.append(rnd.choice(NUMS))   # only where tokens are passed as values: tuple yields, block*, multiblock
         if x < 30:
             ops.append(["y", " ".join(row)])
-        elif x < 42:
+        elif x < 38:
             ops.append(["yt", row])
+        elif x < 42:
+            # a tuple that nests a lazily produced part (a generator expression, map object, iterator, list): ("vlan batch", (str(v) for v in ids))
+            ops.append(["ytn", row, rnd.randint(1, max(1, len(row) - 1)), rnd.choice(["genexp", "map", "iter", "list", "range"])])
         elif x < 52:
             lines = [[0, " ".join(row)]]
             if rnd.chance(60):
@@ -70,7 +73,7 @@ def model_paths(ops, path=()):
         k = op[0]
         if k == "y":
             out.append(path + (op[1],))
-        elif k == "yt":
+        elif k in ("yt", "ytn"):
             out.append(path + (" ".join(map(str, op[1])),))
         elif k == "ym":
             stack = []
@@ -199,6 +202,15 @@ def _gen_from(rnd):
             g["served_before"] = rnd.choice(["same-vendor", "other-vendor"])
         g["vendor_hooks"] = rnd.chance(50)    # run_<vendor>/acl_<vendor> hooks (how the shipped generators are written) or run/acl
         gens.append(g)
+    if len(gens) < 3 and rnd.chance(15):
+        # a generator that has nothing to say for this device but whose ACL speaks about lines another generator yields (its ACL is
+        # part of the run all the same: two owners of one yielded line are a conflict whether or not both yield it)
+        src = rnd.choice(gens)
+        rules = [r for r in src["acl"] if not r.get("glob")]
+        if rules:
+            import copy as _copy
+            gens.append({"prog": [], "acl": _copy.deepcopy(rnd.sample(rules, rnd.randint(1, min(2, len(rules))))), "acl_indent": 0,
+                         "vendor_hooks": rnd.chance(50), "silent": True})
     case = {"vendor": vendor, "gens": gens}
     if rnd.chance(35):
         # the device already has a configuration: lines that the generators' ACL rules speak about (some in the overlap of two
@@ -254,6 +266,11 @@ def _make_gen(i, spec, vendor):
                 yield op[1]
             elif k == "yt":
                 yield tuple(op[1])
+            elif k == "ytn":
+                head, tail = list(op[1][:op[2]]), list(op[1][op[2]:])
+                lazy = {"genexp": (w for w in tail), "map": map(str, tail), "iter": iter(tail), "list": list(tail),
+                        "range": tail}[op[3]]
+                yield tuple(head) + (lazy,)
             elif k == "ym":
                 yield "\n".join("  " * lvl + row for lvl, row in op[1]) + "\n"
             elif k == "b":
